@@ -122,6 +122,7 @@ class Interp:
         self.force_attr_split = False
         self.track_loads = False
         self.dedupe_sites = False
+        self.retry_loop_cap = 0
         self.trace_sites = []
         self.watch = None  # optional callable(event dict)
 
@@ -641,6 +642,9 @@ class Interp:
 
     def st_For(self, st, frame):
         it = ops.iterate(self, self.eval(st.iter, frame), st.iter)
+        if self.retry_loop_cap and len(it) > self.retry_loop_cap and isinstance(st.target, ast.Name) and st.target.id == "_":
+            # `for _ in range(N)` retry loops: iterations are abstractly identical, the cap keeps path counts finite
+            it = it[: self.retry_loop_cap]
         for x in it:
             self.assign(st.target, x, frame)
             try:
